@@ -26,8 +26,9 @@ Flood == /\ E.ev = "flood" /\ ~Has(E, "error")
          \* model: a queued signal is lost exactly when its stop is reported to a tracer that cannot decode it
          /\ drift' = Note(IF RtDecodable THEN E.waitErr = 0 /\ E.reinjected = E.waitOther ELSE E.sent - E.delivered = E.waitErr, drift, "loss-vs-undecodable-stops")
          /\ nchk' = nchk + 1 /\ nsig' = nsig + E.sent
-(* thread record: [alive, state, tracer, heartbeat (is a heartbeat thread), hbAdvancing, sentRt, gotRt, sentStd, gotStd] *)
-ThreadOk(t) == ~t.alive \/ (/\ t.tracer = 0 /\ ~Stopped(t.state) /\ (t.heartbeat => t.hbAdvancing))
+(* thread record: [alive, state, tracer, tracerAtReturn, heartbeat (is a heartbeat thread), hbAdvancing, sentRt, gotRt, sentStd, gotStd] *)
+ThreadOk(t) == ~t.alive \/ (/\ t.tracer = 0 /\ t.tracerAtReturn = 0        \* not traced when the request returned, nor later
+                            /\ ~Stopped(t.state) /\ (t.heartbeat => t.hbAdvancing))
 SignalsOk(t) == ~t.alive \/ (/\ t.gotRt = t.sentRt                                    \* queued signals: exactly once
                              /\ t.gotStd <= t.sentStd /\ (t.sentStd > 0 => t.gotStd >= 1))     \* standard signals may coalesce
 Dump == /\ E.ev = "c03"
